@@ -18,7 +18,7 @@ CONSTANTS
   MaxSteps = 99
   TsDeltas = {1, 2}
   TxLevel = 0
-  HdrMuts = {"badpow", "badtarget", "ts_equal", "ts_before", "height_plus", "cb_height", "evidence", "merkle", "orphan", "no_reward", "two_rewards", "cb_blank", "cb_realref", "cb_bigdata", "future"}
+  HdrMuts = {"badpow", "badtarget", "target_otherchain", "ts_equal", "ts_before", "height_plus", "cb_height", "evidence", "merkle", "orphan", "no_reward", "two_rewards", "cb_blank", "cb_realref", "cb_bigdata", "future"}
   TxMuts = {}
   RewardDeltas <- RD2
   UseNoValidation = FALSE
